@@ -382,10 +382,16 @@ func runC04(c *Ctx) {
 		}
 		contendedBatch(c, r, kind, i, 40)
 	}
-	concurrentUDP(c, r, 8, c.N/40+10)
+	concurrentUDP(c, r, 16, c.N/40+10)
 }
 
 func concurrentUDP(c *Ctx, r *Rng, workers, perWorker int) {
+	concurrentUDPMode(c, r, workers, perWorker, false)
+	// connect storm: nothing but connects from distinct sources, back to back (pooled generator / buffer reuse)
+	concurrentUDPMode(c, r, 32, perWorker, true)
+}
+
+func concurrentUDPMode(c *Ctx, r *Rng, workers, perWorker int, storm bool) {
 	now := int64(1700000000e9)
 	timecache.VerifSetClock(now)
 	type result struct {
@@ -414,6 +420,44 @@ func concurrentUDP(c *Ctx, r *Rng, workers, perWorker int) {
 				panic(err)
 			}
 			defer cl.Close()
+			if storm {
+				// bursts: 16 connects handed to the frontend back to back, then their 16 answers are read and
+				// matched by transaction ID
+				const burst = 16
+				for i := 0; i < perWorker; i += burst {
+					var ucs []udpCase
+					for b := 0; b < burst; b++ {
+						uc := udpCase{now: now, skew: 10e9, maxnw: 100, defnw: 50, ms: 50, logic: "echo", src: net.IP{10, byte(w), byte((i + b) >> 8), byte(i + b)}}
+						uc.pkt = append([]byte{0, 0, 0x04, 0x17, 0x27, 0x10, 0x19, 0x80, 0, 0, 0, 0}, rr.Bytes(4)...)
+						binary.BigEndian.PutUint16(uc.pkt[12:14], uint16(i+b)) // distinct transaction IDs within the burst
+						ucs = append(ucs, uc)
+						_ = fe.VerifHandle(append([]byte{}, uc.pkt...), append(net.IP{}, uc.src...), cl.LocalAddr().(*net.UDPAddr))
+					}
+					fe.VerifSentinel(cl.LocalAddr().(*net.UDPAddr))
+					got := map[string][]string{}
+					buf := make([]byte, 65536)
+					for {
+						_ = cl.SetReadDeadline(time.Now().Add(3 * time.Second))
+						n, _, err := cl.ReadFromUDP(buf)
+						if err != nil || string(buf[:n]) == "\xffVERIF-SENTINEL\xff" {
+							break
+						}
+						if n >= 8 {
+							got[string(buf[4:8])] = append(got[string(buf[4:8])], hx(buf[:n]))
+						}
+					}
+					for _, uc := range ucs {
+						obs := "silent"
+						if g := got[string(uc.pkt[12:16])]; len(g) == 1 {
+							obs = "dgram=" + g[0]
+						} else if len(g) > 1 {
+							obs = "TWO-DATAGRAMS"
+						}
+						results[w] = append(results[w], result{uc, obs})
+					}
+				}
+				return
+			}
 			for i := 0; i < perWorker; i++ {
 				uc := udpCase{now: now, skew: 10e9, maxnw: 100, defnw: 50, ms: 50, logic: "echo", src: net.IP{10, byte(w), byte(i >> 8), byte(i)}}
 				f := randAnnounce(rr, &uc)
@@ -424,6 +468,9 @@ func concurrentUDP(c *Ctx, r *Rng, workers, perWorker int) {
 				uc.pkt = f.build()
 				if rr.Intn(6) == 0 {
 					uc.pkt = uc.pkt[:16+rr.Intn(len(uc.pkt)-15)]
+				}
+				if storm || rr.Intn(3) == 0 { // a connect: the issued ID must be the one for *this* source address
+					uc.pkt = append([]byte{0, 0, 0x04, 0x17, 0x27, 0x10, 0x19, 0x80, 0, 0, 0, 0}, rr.Bytes(4)...)
 				}
 				pkt := append([]byte{}, uc.pkt...)
 				_ = fe.VerifHandle(pkt, append(net.IP{}, uc.src...), cl.LocalAddr().(*net.UDPAddr))
